@@ -126,6 +126,11 @@ def findSub (pat : List Char) : List Char → Option Nat
     if startsWith pat (c :: cs) then some 0
     else (findSub pat cs).map (· + 1)
 
+/-- `memchr`: position of the first occurrence of `c` -/
+def findChar (c : Char) : List Char → Option Nat
+  | [] => none
+  | x :: xs => if x = c then some 0 else (findChar c xs).map (· + 1)
+
 /-- result of the start marker search: offset, marker, pattern length -/
 abbrev Found := Option (Nat × Marker × Nat)
 
